@@ -39,6 +39,7 @@ func run(c *Ctx) {
 	genBits(c, add)
 	genEpb(c, add)
 	genH264(c, add)
+	genAsc(c, add)
 
 	lines := make([]string, len(cases))
 	for i, k := range cases {
@@ -56,6 +57,8 @@ func run(c *Ctx) {
 			evalEpb(c, k, outs[i])
 		case "h264dec", "h264enc":
 			evalH264(c, k, outs[i])
+		case "ascdec", "ascenc":
+			evalAsc(c, k, outs[i])
 		default:
 			c.Find(Finding{Kind: "corr", Class: "unknown-op", Case: k.line, Impl: "?", Model: outs[i]})
 		}
